@@ -10,12 +10,16 @@ from vlib import harness
 
 ID = "C01"
 LEVEL = "exploration"
-TECHNIQUE = "runtime monitor: syscall sinks (kill/setpriority/ioprio_set/sched_setaffinity/prlimit) + incarnation model over generated PID-reuse histories"
+TECHNIQUE = ("runtime monitor: syscall sinks (kill/setpriority/ioprio_set/sched_setaffinity/prlimit) + incarnation model over generated "
+             "PID-reuse histories; live kernel: a really recycled PID with an innocent bystander whose state is watched")
 RULE = ("one case = one history over a simulated process table with Process objects created at arbitrary points; "
         "all valid histories up to depth D over a 12-op alphabet on one recycled pid are enumerated (exhaustive), "
         "plus random histories (<=40 ops, 6 pids, every signal number 1..64, nice -20..19, ioclass x level, "
         "cpu subsets, rlimit pairs), plus pid-0 / negative-pid histories. non-trivial = a signal or setter is issued "
-        "on an object whose pid has been freed or re-used; distinct by history hash")
+        "on an object whose pid has been freed or re-used; distinct by history hash. Live part: a real child is remembered by a "
+        "psutil object (Process / Popen / process_iter entry), killed and reaped, then vlib.livereuse forks until the kernel hands "
+        "the same pid to a new unrelated process; every signal form and setter on the stale object must raise NoSuchProcess and "
+        "leave that bystander as it was (alive, not stopped, same nice / affinity / limits / start time)")
 ASSUMPTIONS = [
     "process identity is (pid, start tick); a pid is never re-used within the same clock tick (documented psutil assumption)",
     "the table does not change during a single psutil call (check-then-kill TOCTOU is inherent and not claimed)",
@@ -30,7 +34,7 @@ SIGNOS = sorted(set(range(1, 65)) | {int(s) for s in signal.Signals})
 def alphabet():
     return [("exit", PID), ("reap", PID), ("vanish", PID), ("spawn", PID, False), ("spawn", PID, True),
             ("isrun", 0), ("q", 0, "name"), ("iter",), ("new", PID), ("sig", 0, "kill", None),
-            ("set", 0, "nice", 5), ("sig", -1, "terminate", None)]
+            ("set", 0, "nice", 5), ("sig", -1, "terminate", None), ("wait", 0)]
 
 
 def valid(op, st):
@@ -129,8 +133,10 @@ def gen_random(rng):
             nh += sum(1 for q in pids if state[q] != "free")
         elif r < 0.70:
             hist.append(("step", rng.choice([300, -300, 86400, 7])))
-        elif r < 0.71:
+        elif r < 0.705:
             hist.append(("boot",))
+        elif r < 0.71:
+            hist.append(("wait", rng.randrange(nh)) if rng.random() < 0.7 else ("wait", rng.randrange(nh), "procs"))
         elif r < 0.74:
             hist.append(("pidex", p))
         elif r < 0.88:
@@ -150,6 +156,8 @@ def gen_random(rng):
                 cpus = [c for c in range(4) if rng.random() < 0.5] or [rng.randrange(4)]
                 if rng.random() < 0.2:
                     cpus = cpus + cpus[:1]
+                if rng.random() < 0.15:
+                    cpus = []               # "all eligible CPUs"
                 v = cpus
             hist.append(("set", rng.randrange(nh), k, v))
     return hist
@@ -179,6 +187,8 @@ def expected_event(op, h):
     if k == "rlimit":
         return ["prlimit_set", h.pid, [v[0], list(v[1])], h.inc]
     if k == "affinity":
+        if not v:
+            return ["affinity_set", h.pid, "<all eligible>", h.inc]
         return ["affinity_set", h.pid, sorted(set(v)), h.inc]
 
 
@@ -186,7 +196,7 @@ def norm(e):
     e = list(e)
     if isinstance(e[2], tuple):
         e[2] = [list(x) if isinstance(x, tuple) else x for x in e[2]]
-    if e[0] == "affinity_set":
+    if e[0] == "affinity_set" and not isinstance(e[2], str):
         e[2] = sorted(set(e[2]))
     return e
 
@@ -201,7 +211,7 @@ def run_history(hist, acc, with_pid0=False):
     with w:
         for op in hist:
             op = tuple(op)
-            if op[0] in ("isrun", "q", "sig", "set", "osenter", "osexit"):
+            if op[0] in ("isrun", "q", "sig", "set", "osenter", "osexit", "wait"):
                 hi = op[1]
                 if hi == -1:
                     hi = len(w.handles) - 1
@@ -238,6 +248,11 @@ def run_history(hist, acc, with_pid0=False):
                     want = norm(expected_event(op, h))
                     if res[0] != "ok":
                         viols.append((f"live_target_{op[0]}_raised:{res[0]}", ctx))
+                    elif want[2] == "<all eligible>":
+                        # which CPUs are "eligible" is C18's business: here exactly one request, to the right process
+                        if not (len(real_events) == 1 and real_events[0][0] == "affinity_set" and real_events[0][1] == want[1]
+                                and real_events[0][3] == want[3] and real_events[0][2]):
+                            viols.append((f"wrong_delivery:{op[2]}", ctx + f" want={want}"))
                     elif real_events != [want]:
                         viols.append((f"wrong_delivery:{op[2]}", ctx + f" want={want}"))
                 else:
@@ -264,6 +279,11 @@ def run_history(hist, acc, with_pid0=False):
                     h = w.handles[op[1]]
                     if w.cur_inc(h.pid) is None and (rec["res"] == ("ok", False) or rec["res"][0] == "NoSuchProcess"):
                         seen_gone.add(op[1])
+                if op[0] == "wait":
+                    h = w.handles[op[1]]
+                    acc.count("wait_calls_in_histories")
+                    if w.cur_inc(h.pid) is None and rec["res"][0] == "ok":
+                        seen_gone.add(op[1])
                 if op[0] == "newneg":
                     if rec["res"][0] != "exc:ValueError":
                         viols.append(("negative_pid_accepted", ctx))
@@ -285,6 +305,15 @@ def pid0_histories():
 
 def signo_histories():
     out = []
+    # state left behind by wait()/wait_procs() between the death and the re-use
+    for w_ in (("wait", 0), ("wait", 0, "procs")):
+        for z in (False, True):
+            for tail in (("sig", 0, "kill", None), ("set", 0, "nice", 5), ("set", 0, "affinity", []), ("sig", 0, "send_signal", 10)):
+                out.append([("spawn", 7, False), ("new", 7), ("exit", 7), ("reap", 7), w_, ("spawn", 7, z), tail])
+                out.append([("spawn", 7, False), ("newp", 7), ("vanish", 7), w_, ("isrun", 0), ("spawn", 7, z), tail])
+    for z in (False, True):
+        out.append([("spawn", 7, False), ("new", 7), ("vanish", 7), ("spawn", 7, z), ("set", 0, "affinity", [])])
+        out.append([("spawn", 7, False), ("new", 7), ("vanish", 7), ("isrun", 0), ("spawn", 7, z), ("set", 0, "affinity", [])])
     # guards served from a cache / skipped for special object kinds must still see a recycled pid
     for kind, signo in (("kill", None), ("terminate", None), ("suspend", None), ("send_signal", 10)):
         for z in (False, True):
@@ -350,10 +379,114 @@ def run_suite_audit(shard, acc):
     acc.case(dict(kind="suite_audit", files=shard["files"]), True, viols)
 
 
+# ---- live kernel: a REAL recycled pid -------------------------------------------------------------------
+
+LIVE_VARIANTS = ["saw_pid_free", "waited_after_death", "never_saw_pid_free", "popen_waited", "from_process_iter",
+                 "queried_then_reused"]
+
+
+def run_live_reuse(shard, acc):
+    """A real child is started, remembered by a psutil object, killed and reaped; vlib.livereuse then forks until the
+    kernel hands the same pid to a new, unrelated process (an innocent bystander that only pauses).  Every signal form
+    and every setter is then tried on the stale object: each must raise NoSuchProcess and the bystander must stay
+    exactly as it was (alive, not stopped, same nice / affinity / limits)."""
+    import os
+    import subprocess
+    import sys
+    import time
+    from vlib import livereuse
+    ps = setup()["ps"]
+    assert ps.PROCFS_PATH == "/proc", ps.PROCFS_PATH
+    variant = shard["variant"]
+    case = dict(kind="live_reuse", variant=variant)
+    viols = []
+    env = {k: v for k, v in os.environ.items() if k != "LD_PRELOAD"}
+    argv = [sys.executable, "-S", "-c", "import time\nwhile True: time.sleep(1000)"]
+    if variant == "popen_waited":
+        child = ps.Popen(argv, env=env)
+        obj = child
+    else:
+        child = subprocess.Popen(argv, env=env)
+        if variant == "from_process_iter":
+            obj = [p for p in ps.process_iter() if p.pid == child.pid][0]
+        else:
+            obj = ps.Process(child.pid)
+    pid = child.pid
+    if variant == "queried_then_reused":
+        obj.name(), obj.ppid(), obj.status(), obj.is_running()
+    os.kill(pid, 9)
+    child.wait()
+    if variant == "waited_after_death":
+        try:
+            obj.wait(timeout=1)
+        except ps.TimeoutExpired:
+            viols.append(("live:wait_timeout_for_reaped_child", variant))
+    if variant in ("saw_pid_free", "popen_waited"):
+        r = obj.is_running()
+        if r is not False:
+            viols.append(("live:is_running_True_after_reap", f"{variant}: is_running() -> {r!r} after the child was reaped"))
+    t0 = time.time()
+    with livereuse.Recycled(pid) as rec:
+        if not rec.ok:
+            acc.count("live_reuse_skipped")
+            acc.extra.setdefault("live_reuse_skipped", []).append(rec.why)
+            return
+        acc.count("live_pid_recyclings")
+        acc.extra.setdefault("live_reuse_forks", []).append(rec.forks)
+        before = livereuse.bystander_state(pid)
+        ops = [("send_signal", lambda: obj.send_signal(15)), ("send_signal0", lambda: obj.send_signal(0)),
+               ("suspend", obj.suspend), ("resume", obj.resume), ("terminate", obj.terminate), ("kill", obj.kill),
+               ("nice", lambda: obj.nice(7)), ("ionice", lambda: obj.ionice(ps.IOPRIO_CLASS_IDLE)),
+               ("cpu_affinity", lambda: obj.cpu_affinity([before["affinity"][0]])),
+               ("cpu_affinity_all", lambda: obj.cpu_affinity([])),
+               ("rlimit", lambda: obj.rlimit(ps.RLIMIT_NOFILE, (256, 256))),
+               ("wait_procs_terminate", lambda: [q.terminate() for q in [obj]])]
+        if variant == "from_process_iter":
+            ops.insert(0, ("iter_again", lambda: [q.kill() for q in ps.process_iter() if q is obj]))
+        for name, fn in ops:
+            harness.mark_current(dict(case, op=name))
+            acc.count("signals_on_recycled_pid")
+            acc.count("live_ops_on_recycled_pid")
+            try:
+                fn()
+                outcome = "returned"
+            except ps.NoSuchProcess:
+                outcome = "NoSuchProcess"
+            except Exception as e:  # noqa: BLE001
+                outcome = type(e).__name__
+            time.sleep(0.01)
+            try:
+                after = livereuse.bystander_state(pid)
+            except (OSError, ValueError):
+                after = None
+            acc.count("sink_events_checked")
+            if after is None or after["starttime"] != before["starttime"]:
+                viols.append((f"live:delivered_to_new_owner:{name}", f"{variant}: after {name}() on the stale object the bystander "
+                              f"(pid {pid}) is gone; outcome={outcome}"))
+                break
+            if after != before:
+                viols.append((f"live:delivered_to_new_owner:{name}", f"{variant}: {name}() on the stale object changed the bystander: "
+                              f"{before} -> {after}; outcome={outcome}"))
+                before = after
+            if outcome != "NoSuchProcess" and name != "iter_again":
+                viols.append((f"live:no_NoSuchProcess_for_gone_target:{name}", f"{variant}: {name}() -> {outcome}"))
+        # identity facts (C02's side of the same history)
+        fresh = ps.Process(pid)
+        if obj == fresh or not (obj != fresh):
+            viols.append(("live:stale_object_equals_new_owner", f"{variant}: old object == Process({pid}) of the bystander"))
+        if obj.is_running() is not False:
+            viols.append(("live:is_running_True_for_recycled_pid", f"{variant}"))
+    acc.extra.setdefault("live_reuse_seconds", []).append(round(time.time() - t0, 1))
+    acc.case(case, True, viols)
+    harness.mark_current(None)
+
+
 def plan(tier, seed):
     depth = 5 if tier == "quick" else 6
     nrand = 48000 if tier == "quick" else 600000
     shards = [dict(kind="fixed")]
+    # one shard, variants one after the other: concurrent recyclers would snatch each other's target pid
+    shards.append(dict(kind="live_reuse", variants=LIVE_VARIANTS[:2] if tier == "quick" else LIVE_VARIANTS, timeout=1500))
     if tier == "thorough":
         shards.append(dict(kind="suite_audit", files=["test_process.py", "test_posix.py"], timeout=3000))
         shards.append(dict(kind="suite_audit", files=["test_system.py", "test_misc.py", "test_testutils.py"], timeout=3000))
@@ -390,8 +523,14 @@ def run_shard(shard):
             run_history(gen_random(rng), acc, with_pid0=False)
     elif k == "suite_audit":
         run_suite_audit(shard, acc)
+    elif k == "live_reuse":
+        for v in shard["variants"]:
+            run_live_reuse(dict(variant=v), acc)
     elif k == "cases":
         for case in shard["cases"]:
+            if case.get("kind") == "live_reuse":
+                run_live_reuse(dict(variant=case["variant"]), acc)
+                continue
             if case.get("kind") == "suite_audit":
                 run_suite_audit(dict(files=case["files"]), acc)
                 continue
